@@ -58,7 +58,7 @@ def axiom_checks():
                 xs, arr, n = fresh_int_list(e)
                 r = build(e, xs, par)
                 return xs, arr, n, r
-            outs = eng.explore(thunk)
+            outs = eng.explore(thunk, keep=True)
             # single path expected for pure constructions; for forking constructs check each path
             for kind, val, path in outs:
                 if kind != "ok":
